@@ -29,7 +29,8 @@ LEVEL_NOTE = "Trusted: Coq kernel; Spec/StringLit.v as a reading of the RFC; cor
 SIMPLE = ["\\b", "\\f", "\\n", "\\r", "\\t", "\\/", "\\\\"]
 RAW = ["a", "b", "Z", "0", " ", "~", "\x7f", "é", " ", "퟿", "", "￿", "\U00010000", "\U0001F600", "\U0010FFFF", "/", "$", "[", "]", "?", "@", "*", ",", ":",
        # characters and sequences that Unicode normalisation would rewrite (combining marks after a base letter, compatibility characters, jamo)
-       "e\u0301", "\u212b", "\u2126", "\u212a", "\u1100\u1161", "\uf900", "\u037e", "\u0301"]
+       "e\u0301", "\u212b", "\u2126", "\u212a", "\u1100\u1161", "\uf900", "\u037e", "\u0301",
+       "\u00df", "\u0130", "\ufb01", "\uff41", "\u200b", "\ufeff", "\u00ad", "\u1e9e"]
 BADRAW = ["\x00", "\x01", "\x08", "\t", "\n", "\r", "\x1f"]
 
 
